@@ -165,6 +165,8 @@ PROPS["C10"] = dict(
         # storage above the block-cache threshold (64 KiB in the small triple): such blocks bypass the cache
         S("small-plain", "pure", ["--fam", "mul,ech,ple,trsm,inv,solve,kernel,move", "--mindim", "700"], (260, 1100), (4000, 1600)),
         S("small-asan", "pure", [], (1200, 160), (20000, 400)),
+        # operands that are windows with non-zero excess bits: owned results must still come out with zero padding and independent of the history
+        S("small-plain", "pure", ["--policy", "win"], (1500, 200), (24000, 600)),
         S("host-nosse-plain", "pure", [], (600, 260), (10000, 900)),
         S("small-ts-plain-vg", "func", ["--balance", "0"], (160, 90), (2400, 260), valgrind=True, timeout=300),
     ],
